@@ -36,6 +36,8 @@ func main() {
 		cmdCalls(os.Args[2:])
 	case "replay":
 		cmdReplay(os.Args[2:])
+	case "list":
+		cmdList(os.Args[2:])
 	default:
 		fmt.Fprintln(os.Stderr, "unknown command", os.Args[1])
 		os.Exit(2)
@@ -253,5 +255,41 @@ func cmdCalls(args []string) {
 			}
 			show(fn, "")
 		}
+	}
+}
+
+
+// cmdList prints every function contract of the given packages with the source file
+// of the function it is attached to (used to keep props/*.json aligned with the
+// properties' anchor files).
+func cmdList(args []string) {
+	fs := flag.NewFlagSet("list", flag.ExitOnError)
+	pkgs := fs.String("pkgs", "", "comma-separated package patterns")
+	fs.Parse(args)
+	e := NewEngine(envOr("VERIF_REPO", "/repo"), envOr("VERIF_DIR", "/verif"))
+	if err := e.Load(strings.Split(*pkgs, ",")); err != nil {
+		fmt.Fprintln(os.Stderr, "load:", err)
+		os.Exit(2)
+	}
+	loaded := map[string]bool{}
+	for _, p := range e.pkgs {
+		loaded[p.PkgPath] = true
+	}
+	for _, k := range sortedKeys(e.contracts) {
+		c := e.contracts[k]
+		if c.Trusted || !loaded[c.Pkg] {
+			continue
+		}
+		fn, err := e.FindFunc(c)
+		if err != nil {
+			fmt.Printf("%s\t?\t%v\n", k, err)
+			continue
+		}
+		pos := e.fset.Position(fn.Pos())
+		flag := ""
+		if c.Assumed != "" {
+			flag = "\tassumed"
+		}
+		fmt.Printf("%s\t%s%s\n", k, shortFile(pos.Filename), flag)
 	}
 }
